@@ -239,6 +239,11 @@ pub fn gen_opaque(t: &mut Tape) -> OpaqueCase {
         ("tl", "to=\"2999-01-01 00:00:00\"", false),
         ("zz", "name='a'", false),
         ("rm", "c='x'", false),
+        // the condition value itself is opaque: padding and line breaks inside the quotes are part of the name
+        ("rm", "name=' a'", false),
+        ("rm", "name='a '", false),
+        ("rm", "name=\"a\n\"", false),
+        ("rm", "name='A'", false),
     ];
     let (tag, cond, holds) = *t.pick(conds);
     let mut attrs = vec![cond.to_string()];
